@@ -1427,6 +1427,121 @@ def _scalar_replace(fn, records):
     T().visit(fn)
 
 
+def _tuple_replace(fn):
+    """a local that only ever holds a tuple display of fixed length or None (the result slot of an
+    inlined "find the header and return its fields, else None" helper), is only tested against None
+    and otherwise unpacked whole, becomes one local per element plus a boolean:
+        t = (a, b) / t = None / if t is not None / x, y = t
+      ->  t__0 = a; t__1 = b; t__set = True / t__set = False / if t__set / x = t__0; y = t__1"""
+    parents = {}
+    for n in [fn] + list(_stmts_walk(fn.body)):
+        for c in ast.iter_child_nodes(n):
+            parents[id(c)] = n
+    info, bad = {}, set()
+    for n in _stmts_walk(fn.body):
+        if not isinstance(n, ast.Name):
+            continue
+        par = parents.get(id(n))
+        if isinstance(n.ctx, ast.Store):
+            if isinstance(par, ast.Assign) and len(par.targets) == 1 and par.targets[0] is n:
+                v = par.value
+                if isinstance(v, ast.Tuple) and not any(isinstance(e, ast.Starred) for e in v.elts):
+                    info.setdefault(n.id, set()).add(len(v.elts))
+                    continue
+                if isinstance(v, ast.Constant) and v.value is None:
+                    info.setdefault(n.id, set())
+                    continue
+            bad.add(n.id)
+        elif isinstance(n.ctx, ast.Load):
+            ok = False
+            if isinstance(par, ast.Compare) and par.left is n and len(par.ops) == 1 and \
+                    isinstance(par.ops[0], (ast.Is, ast.IsNot)) and \
+                    isinstance(par.comparators[0], ast.Constant) and par.comparators[0].value is None:
+                ok = True
+            if isinstance(par, ast.Assign) and par.value is n and len(par.targets) == 1 and \
+                    isinstance(par.targets[0], ast.Tuple) and \
+                    not any(isinstance(e, ast.Starred) for e in par.targets[0].elts):
+                info.setdefault(n.id, set()).add(len(par.targets[0].elts))
+                ok = True
+            if not ok:
+                bad.add(n.id)
+        else:
+            bad.add(n.id)
+    todo = {v: next(iter(ls)) for v, ls in info.items() if v not in bad and len(ls) == 1}
+    if not todo:
+        return False
+    allnames = _names_in(fn)
+
+    def part(v, i):
+        nm = '%s__%s' % (v, i)
+        while nm in allnames:
+            nm += '_'
+        return nm
+
+    class T(ast.NodeTransformer):
+        def visit_Compare(self, n):
+            self.generic_visit(n)
+            if isinstance(n.left, ast.Name) and n.left.id in todo and len(n.ops) == 1 and \
+                    isinstance(n.ops[0], (ast.Is, ast.IsNot)) and \
+                    isinstance(n.comparators[0], ast.Constant) and n.comparators[0].value is None:
+                flag = ast.copy_location(ast.Name(id=part(n.left.id, 'set'), ctx=ast.Load()), n)
+                if isinstance(n.ops[0], ast.Is):
+                    return ast.copy_location(ast.UnaryOp(op=ast.Not(), operand=flag), n)
+                return flag
+            return n
+
+        def visit_Assign(self, n):
+            self.generic_visit(n)
+            t = n.targets[0]
+            if len(n.targets) == 1 and isinstance(t, ast.Name) and t.id in todo:
+                if isinstance(n.value, ast.Tuple):
+                    out = [ast.copy_location(ast.Assign(
+                        targets=[ast.Name(id=part(t.id, i), ctx=ast.Store())], value=e), n)
+                        for i, e in enumerate(n.value.elts)]
+                    out.append(ast.copy_location(ast.Assign(
+                        targets=[ast.Name(id=part(t.id, 'set'), ctx=ast.Store())],
+                        value=ast.Constant(value=True)), n))
+                    return out
+                return ast.copy_location(ast.Assign(
+                    targets=[ast.Name(id=part(t.id, 'set'), ctx=ast.Store())],
+                    value=ast.Constant(value=False)), n)
+            if len(n.targets) == 1 and isinstance(t, ast.Tuple) and isinstance(n.value, ast.Name) and \
+                    n.value.id in todo:
+                return [ast.copy_location(ast.Assign(targets=[e], value=ast.Name(
+                    id=part(n.value.id, i), ctx=ast.Load())), n) for i, e in enumerate(t.elts)]
+            return n
+    T().visit(fn)
+    ast.fix_missing_locations(fn)
+    return True
+
+
+def _copy_back(fn):
+    """``t__1 = nfail`` ... ``nfail = t__1`` with t__1 bound exactly once to a plain name that is not
+    re-bound in between by anything else: reads of t__1 are replaced by that name (and the resulting
+    ``nfail = nfail`` disappears)"""
+    stores, vals = {}, {}
+    simple = set()
+    for n in _stmts_walk(fn.body):
+        if isinstance(n, ast.Assign) and len(n.targets) == 1 and isinstance(n.targets[0], ast.Name):
+            stores[n.targets[0].id] = stores.get(n.targets[0].id, 0) + 1
+            vals[n.targets[0].id] = n.value
+            simple.add(id(n.targets[0]))
+    for n in _stmts_walk(fn.body):
+        if isinstance(n, ast.Name) and isinstance(n.ctx, (ast.Store, ast.Del)) and id(n) not in simple:
+            stores[n.id] = stores.get(n.id, 0) + 2
+    env = {k: v for k, v in vals.items() if '__' in k and stores.get(k) == 1 and isinstance(v, ast.Name)}
+    if not env:
+        return
+
+    class T(ast.NodeTransformer):
+        def visit_Name(self, n):
+            if isinstance(n.ctx, ast.Load) and n.id in env:
+                return ast.copy_location(ast.Name(id=env[n.id].id, ctx=ast.Load()), n)
+            return n
+    T().visit(fn)
+    _drop_self_assign(fn)
+
+
 def _fix_empty(node):
     for n in ast.walk(node):
         for fld in ('body',):
@@ -1692,6 +1807,8 @@ def _simplify_function(fn, records):
     _Fold().visit(fn)
     _fix_empty(fn)
     _scalar_replace(fn, records)
+    if _tuple_replace(fn):
+        _copy_back(fn)
     _propagate(fn)
     _fix_empty(fn)
 
